@@ -25,24 +25,31 @@ def tasks(tier):
     for engine in ("sync", "async"):
         for rtc in ((True, False) if engine == "sync" else (True,)):
             out.append({"kind": "chain", "engine": engine, "rtc": rtc, "max_n": 4 if quick else 8})
-    def hist(engine, rtc, s0, first, budget):
-        out.append({"kind": "history", "engine": engine, "rtc": rtc, "allow": False, "s0": s0, "first": first,
-                    "calls": 1 if quick else 2, "budget": budget, "listener": not quick,
+    def hist(engine, rtc, s0, first, budget, values="int"):
+        out.append({"kind": "history", "engine": engine, "rtc": rtc, "allow": False, "s0": s0, "first": first, "values": values,
+                    "calls": 1 if quick else 2, "budget": budget, "listener": not quick and values == "int",
+                    "drop": ["before_transition"] if values == "first_none" else [],
                     "send_events": ["go", "hop"] if quick else ["go", "hop", "tick"]})
 
     for first in range(3):
         if quick:
             hist("async", True, 3, first, 1)
             hist("async", True, 0, first, 2)
+            hist("sync", True, 0, first, 1, "first_none")
+            hist("async", True, 0, first, 1, "first_none")
             for s0 in range(4):
                 hist("sync", True, s0, first, 2)
             for s0 in (0, 2):
                 hist("sync", False, s0, first, 2)
+                hist("sync", True, s0, first, 2, "first_none")
+                hist("async", True, s0, first, 2, "first_none")
         else:
             for s0 in range(4):
                 hist("async", True, s0, first, 2)
                 hist("sync", True, s0, first, 2)
                 hist("sync", False, s0, first, 2)
+                hist("sync", True, s0, first, 2, "first_none")
+                hist("async", True, s0, first, 2, "first_none")
     return out
 
 
@@ -58,7 +65,7 @@ BOUNDS = {
     "thorough": "as quick with histories of 2 top-level events, a listener adding 3 more callbacks per transition, nested events {go,hop,tick}, all pre-states on the async engine, chain N<=8.",
 }
 OUTSIDE = "more than 3 nested sends per history; chains longer than the bound are covered by the depth-equality step and by one concrete 5000-link run (sanity, reported separately); OS threads (C06)"
-OBLIGATIONS = ["nested-send", "queued-event-ran", "from-construction", "chain-link", "nested-send-failed", "failed-call:TNA"]
+OBLIGATIONS = ["first-result-none", "nested-send", "queued-event-ran", "from-construction", "chain-link", "nested-send-failed", "failed-call:TNA"]
 ASSUMPTIONS = [
     "classes/instances built natively except in the from-construction scenario; every send() under the tracer",
     "order inside a callback group is free; FIFO is judged on the order in which the nested sends were observed",
@@ -75,7 +82,7 @@ def run(ctx, params):
 
 
 def run_first_fixed(ctx, p):
-    script_kw = {"budget": p["budget"], "actions": ("send",), "send_events": tuple(p["send_events"]), "values": "int"}
+    script_kw = {"budget": p["budget"], "actions": ("send",), "send_events": tuple(p["send_events"]), "values": p["values"]}
     first = p["events"][0]
     p2 = dict(p)
     p2["events"] = EVENTS
